@@ -54,6 +54,10 @@ pub const S7: &[&str] = &[
     "%if ",
 ];
 
+pub const DL_FAMILY: &[&str] = &[
+    "datalines", "datalines4", "cards", "cards4", "lines", "lines4", ";", "\n", " ", "a", ";;;;", "x", "/*c*/", "4",
+];
+
 pub const S8: &[&str] = &[
     "a", "é", "€", "😀", "\u{a0}", "\u{feff}", "\n", " ", "'", "\"", ";", "/*", "*/", "*", "%*",
     "%m", "(", ")", "&v", "%let ", "$", ".", "1", "datalines;",
@@ -403,7 +407,11 @@ pub fn sigma_spaces(which: &[&str], tier: Tier) -> Vec<Space> {
                 v.extend(boundary_spaces(if q { 3 } else { 4 }));
                 v.extend(expr_spaces(if q { 3 } else { 4 }));
                 v.extend(alias_spaces(if q { 3 } else { 4 }));
+                // every spelling of the in-stream data keywords (coverage measurement showed that
+                // only DATALINES and CARDS4 were ever exercised)
+                v.push(sp("dlfamily", DL_FAMILY, if q { 4 } else { 5 }));
             }
+            "dl" => v.push(sp("dlfamily", DL_FAMILY, if q { 4 } else { 5 })),
             other => panic!("unknown space {other}"),
         }
     }
